@@ -164,7 +164,7 @@ PROPS = {
         engines=[("allocc", 3000, 60000), ("rangec", 1500, 20000), ("prefixc", 3000, 60000), ("dispatch4c", 3000, 60000), ("filec", 40, 250)],
         theorems=["C16_alloc6_any_schedule", "C16_alloc4_any_schedule", "C16_range_any_schedule", "C16_prefix_any_schedule", "C16_file_any_schedule"],
         modules=["CoreDhcp.Props.C16"],
-        facts=["F1", "F2", "F4", "F10"],
+        facts=["F1", "F2", "F4", "F10", "F11"],
         race=True,
         trusted_base=["the Go memory model, scheduler and sync.Mutex; the race detector (thorough tier) supports data-race freedom, it proves nothing",
                       "fact F1 (lock discipline) and F4 (receive buffer returned to the pool after parsing, never touched again) are syntactic checks of the source"],
@@ -176,7 +176,8 @@ PROPS = {
         theorems=["C10_holds", "C10_accept_iff_wellformed", "C10_mapping_is_file", "C10_all_or_nothing", "C10_own_file", "C10_D8_prefix_refuted", "SYS_file_address4", "SYS_file_address4_cfg", "SYS_file_stops4"],
         modules=["CoreDhcp.Props.C10", "CoreDhcp.Props.System"],
         trusted_base=["bytes.Split / strings.Fields / net.ParseMAC / net.ParseIP: each line reaches the model as the fields the code sees with the parsers' answers", "fsnotify delivery ('eventually') is runtime: the harness rewrites the file and waits (bounded) for the served table to be replaced", "dhcpv6.ExtractMAC"],
-        assumptions=["a refresh is one atomic table swap (recLock held by defer in loadFromFile; readers hold RLock)"],
+        facts=["F11"],
+        assumptions=["a refresh is one atomic table swap (recLock held by defer in loadFromFile, file parsed before the lock; readers hold RLock): fact F11, and the filec engine"],
     ),
     "C08": dict(
         engines=[("prefix", 2500, 40000)],
